@@ -9,7 +9,7 @@ override(new) + one override per affected note.  Does NOT decide that the edited
 from vlib import factbase as fb
 from vlib import q
 from . import arms as A
-from .common import ctx, loc, chain_up, strip_refs
+from .common import ctx, loc, chain_up, strip_refs, through_lets
 
 LOSSY = {"filter_map", "skip", "take", "step_by", "take_while", "skip_while", "nth", "last", "find", "find_map", "dedup", "truncate"}
 
@@ -74,11 +74,14 @@ def rule_r1_r5(facts, rep):
             rep.violation(r1, key, "the taken-name test comes after the patch/edit construction started", loc(f, guard))
     # the affected-set binding: the `let` whose initialiser asks the graph for the referrers of a key
     aff = None
+    cands = []
     for x in fb.walk(body):
         if x.get("k") == "let" and x.get("init") is not None and any(
                 y.get("k") == "mcall" and (fb.callee(y) or "").endswith(("Graph::get_block_references_to", "Graph::get_inline_references_to")) for y in fb.walk(x["init"])):
-            aff = x
-            break
+            cands.append(x)
+    if cands:
+        # the innermost such `let` (an enclosing `let renamed = ..map(|url| { .. })` contains it too)
+        aff = min(cands, key=lambda x: ((x["init"].get("s") or [0, 1 << 60])[1] - (x["init"].get("s") or [0, 0])[0]))
     aff_ids = set(lid for _n, lid in fb.pat_bindings(aff["pat"])) if aff is not None else set()
 
     def over_affected(node):
@@ -123,9 +126,13 @@ def rule_r1_r5(facts, rep):
             if any(p.get("k") == "mcall" and p["name"] == "to_override_new_file_op" for p in ps):
                 use("export_key(new)", x["args"][0])
         if x["name"] in ("to_create_file_op", "to_override_new_file_op"):
-            r = x["recv"]
+            r = through_lets(c, x["recv"])          # `let new_url = new_key.to_full_url(..); new_url.to_create_file_op()`
+            while r.get("k") in ("addrof", "unary"):
+                r = through_lets(c, r["e"])
             while r.get("k") == "mcall" and r["name"] in ("to_full_url", "to_url", "clone"):
                 r = r["recv"]
+                while r.get("k") in ("addrof", "unary"):
+                    r = r["e"]
             use(x["name"] + " receiver", r)
     # build_key for the renamed note = the build_key whose inserted tree is collect(&key) of the renamed key (the one outside for_each)
     bks = [x for x in fb.walk(body) if x.get("k") == "mcall" and x["name"] == "build_key"]
@@ -295,6 +302,21 @@ def _rec_variants(facts, f, enum, method):
         for v in vs:
             out[fb.last_seg(v)] = (rec, arm)
     return out
+
+
+def _known_target_guard(ck, c, rb):
+    """At the rebuilt link, `is_ref()` is known to be true and a comparison of `ref_key()` with the target parameter is known to hold - whatever idiom establishes it."""
+    from .common import facts_at
+    isref = keyeq = False
+    for e, pol in facts_at(c, rb):
+        if not pol:
+            continue
+        t = fb.show_canon(ck, e)
+        if e.get("k") in ("call", "mcall") and (fb.callee(e) or "").endswith("::is_ref"):
+            isref = True
+        if "ref_key" in t and "P1" in t and ((e.get("k") == "binary" and e.get("op") == "==") or (e.get("k") == "mcall" and e.get("name") in ("eq", "is_some_and", "map_or", "contains"))):
+            keyeq = True
+    return isref and keyeq
 
 
 def rule_r3_r4(facts, rep):
@@ -517,6 +539,8 @@ def rule_r3_r4(facts, rep):
     cond = fb.show_canon(ck, iffs[0]["c"]) if iffs else ""
     if iffs and "P1" in cond and "ref_key" in cond and "is_ref" in cond and "!" not in cond.replace("!=", ""):
         rep.ok(r4, k2, "rewritten only if is_ref() && ref_key() == target", loc(ck, iffs[0]))
+    elif _known_target_guard(ck, c, rb):
+        rep.ok(r4, k2, "rewritten only where is_ref() and ref_key() == target are known to hold (early exit / condition held in a local)", loc(ck, rb))
     else:
         rep.violation(r4, k2, "the Link arm rewrites links under `%s` (must be is_ref() && ref_key() == target): other links are retargeted" % cond[:80], loc(ck, rb))
     wild = [arm_ for vs, arm_ in A.arms_of(A.matches_on(ck, "GraphInline")[0]) if vs == ["_"]]
